@@ -462,6 +462,14 @@ class Ctx:
                 for x in _walk_scope(st):
                     if isinstance(x, ast.Assign):
                         for t in x.targets:
+                            if (isinstance(t, (ast.Tuple, ast.List)) and isinstance(x.value, (ast.Tuple, ast.List)) and len(t.elts) == len(x.value.elts)
+                                    and len(x.targets) == 1 and not nested(x) and not any(isinstance(e_, ast.Starred) for e_ in list(t.elts) + list(x.value.elts))):
+                                # a, b = e1, e2: each name is a temporary for its own expression (when no right-hand side reads a name assigned here)
+                                names = {e_.id for e_ in t.elts if isinstance(e_, ast.Name)}
+                                reads = {y.id for v_ in x.value.elts for y in ast.walk(v_) if isinstance(y, ast.Name)}
+                                for tt, vv in zip(t.elts, x.value.elts):
+                                    bump(tt, vv if isinstance(tt, ast.Name) and not (names & reads) else None)
+                                continue
                             bump(t, x.value if len(x.targets) == 1 and not nested(x) else None)
                     elif isinstance(x, ast.AnnAssign) and x.value is not None:
                         bump(x.target, x.value if not nested(x) else None)
